@@ -20,12 +20,12 @@ def write_evidence(prop, tier, level, cov, t0, violations, assumptions):
     ev = {'property_id': prop, 'tier': tier, 'seed': SEED, 'level': level, 'coverage': cov, 'assumptions': assumptions,
           'wall_s': round(time.time() - t0, 2), 'violations': violations}
     mcdriver.validate_evidence(ev)
-    os.makedirs(os.path.join(V, 'evidence'), exist_ok=True)
-    with open(os.path.join(V, 'evidence', prop + '.json'), 'w') as fp:
+    os.makedirs(os.path.join(mcdriver.OUT, 'evidence'), exist_ok=True)
+    with open(os.path.join(mcdriver.OUT, 'evidence', prop + '.json'), 'w') as fp:
         json.dump(ev, fp, indent=1)
 
 def write_replay(prop, n, obj):
-    d = os.path.join(V, 'replays', prop)
+    d = os.path.join(mcdriver.OUT, 'replays', prop)
     os.makedirs(d, exist_ok=True)
     p = os.path.join(d, '%d.json' % n)
     with open(p, 'w') as fp:
